@@ -33,6 +33,18 @@ CHECKS = {
  "C20": ("runtime monitoring: per-algorithm specification oracles (subset enumeration for maximal cliques and the Steiner optimum, properness/colour-range checker, acyclicity of the remainder, closure-derived reduction/closure, DFS path enumeration, rank-vector invariants and relabeling equivariance) over results of the real code",
          "Exploration. ~8*10^4 cases x 6 inputs per quick run, every algorithm on its documented domain and on every encoding that satisfies its bounds.",
          "Oracles trusted; sizes n<=11 (cliques), n<=9 (Steiner optimum), tolerance 1e-9 only for page_rank.", "DESIGN.md 5/C20"),
+ "C01": ("runtime monitoring: reference-model monitor (compact multigraph with unique weight ids) over generated operation histories on the real Graph, full observation sweep of every public query after each mutation, hook site counters; ASan + Miri legs for the unsafe index_twice paths",
+         "Exploration. ~1.3*10^4 histories / 2.7*10^6 operations per quick run in debug and release; each return value and every query (ordered where the documentation fixes the order) is compared with the model; implementation-defined numbering is checked against its constraint and adopted by unique ids.",
+         "Model in harness/src/dsmodel.rs + props/c01.rs trusted; u32/usize index limits unreachable (u8 is driven to its limit).", "DESIGN.md 5/C01"),
+ "C02": ("runtime monitoring: index-stable reference-model monitor over generated histories on the real StableGraph, observation sweep, raw free-list invariant probe through the verif-hooks exporter, boundary probes that trigger the library's own debug self-check, equal volume in debug and release; ASan + Miri legs",
+         "Exploration. ~1.3*10^4 histories per quick run with frequent failing try_* calls and vacancies; 'unchanged after failure' is decided by the full sweep + raw-state comparison after every failing call.",
+         "Model trusted; which vacancy is reused is not predicted (checked: not live, then adopted).", "DESIGN.md 5/C02"),
+ "C05": ("runtime monitoring: set / list reference models over generated insertion histories on the real Csr and adj::List, rows driven across the 32-entry binary-search cutoff (both branches confirmed by hook counters), from_sorted_edges accept/reject oracle, every returned EdgeIndex re-resolved; ASan + Miri legs",
+         "Exploration. ~2.5*10^4 histories per quick run; every query incl. raw row/column arrays compared with the model after each sweep point.",
+         "Models trusted; index-width overflow of these two types is undocumented and not driven; Build::update_edge on List is exercised in range only ('might panic').", "DESIGN.md 5/C05"),
+ "C19": ("runtime monitoring: partition-model monitor (label vector) over generated call histories on the real UnionFind incl. out-of-range arguments and documented panics, representative-stability monitor between unions, raw parent/rank invariant probe; ASan + Miri legs for the get_unchecked paths",
+         "Exploration. ~4.8*10^4 histories per quick run over four index widths (u8 up to all 256 elements).",
+         "Model trusted.", "DESIGN.md 5/C19"),
 }
 REASON_PENDING = "check under construction in this round (runtime monitoring applies; see DESIGN.md section 5)"
 
